@@ -90,7 +90,7 @@ def generate(seed: int, tier: str = "quick") -> Dict[str, Any]:
     n_base = len(rcdata.items())
     pool = [rng.randrange(n_base) for _ in range(rng.randint(1, 6))]
     near_p = rng.choice([0.0, 0.15, 0.3])
-    cfg = {"attr": rng.random() < 0.6}
+    cfg = {"attr": rng.random() < 0.6, "attr_kind": rng.choice(["str", "str", "deg_desc", "size_pair"])}
     faulty = rng.random() < 0.75
     ops: List[Dict[str, Any]] = []
     k = 0
@@ -181,7 +181,7 @@ def _run(case: Dict[str, Any], sim: Sim, world: World) -> None:
                 held.setdefault(src_key, g)
         d: Dict[str, Any] = {"gml": g, "uid": uid}
         if akey:
-            d[akey] = rcdata.invariant_attr(g)
+            d[akey] = rcdata.invariant_attr_kind(g, case["cfg"].get("attr_kind", "str"))
         return d
 
     def check_templates(site: str) -> None:
